@@ -83,7 +83,7 @@ def teardown(ctx):
     contracts.detach_all()
 
 
-def make(ctx, rng, kind, units=1.0):
+def make(ctx, rng, kind, units=1.0, pipeline=False):
     aa = ctx.aa
     H, W = int(rng.integers(3, 9)), int(rng.integers(3, 10))
     for _ in range(20):
@@ -106,6 +106,21 @@ def make(ctx, rng, kind, units=1.0):
     g = _np(osamp.over_sampled_grid).copy()
     src, dk = gen_aa.distort(rng, g, strength=float(rng.uniform(0.05, 0.4)))
     src = src * units              # the source plane expressed in other units (e.g. radians instead of arc-seconds)
+    if kind == "rect" and pipeline:
+        # the mapper as the public pipeline builds it: mesh.Rectangular.mapper_grids_from with a border relocator; a third of the
+        # traced sub-pixels are flung far outside (de-magnified centre), so relocation really moves points before the mesh is
+        # laid over them. Points and mesh are then taken from the mapper grids the pipeline returned.
+        shape = (int(rng.integers(3, 8)), int(rng.integers(3, 6)))
+        cen = src.mean(0)
+        far = rng.random(len(src)) < 0.3
+        src = src.copy()
+        src[far] = cen + (src[far] - cen) * rng.uniform(2.0, 6.0, size=(int(far.sum()), 1))
+        br = aa.BorderRelocator(mask=mask, sub_size=aa.Array2D(values=subs.astype(int), mask=mask))
+        mg = aa.mesh.Rectangular(shape=shape).mapper_grids_from(mask=mask, source_plane_data_grid=aa.Grid2DIrregular(values=src.copy()),
+                                                               border_relocator=br, adapt_data=aa.Array2D(values=np.exp(rng.uniform(0.0, np.log(50.0), size=n)) * 0.1, mask=mask))
+        mp = aa.Mapper(mapper_grids=mg, over_sampler=osamp, regularization=aa.reg.Constant(coefficient=1.0))
+        return dict(m=m, fam=fam, ps=ps, origin=origin, subs=subs, submode=submode, src=_np(mp.source_plane_data_grid).astype(float), dk=dk + "+pipeline_with_border_relocator",
+                    mesh=mp.source_plane_mesh_grid, V=None, mapper=mp, kind=kind, units=units, pipeline=True)
     if kind == "rect":
         shape = (int(rng.integers(3, 8)), int(rng.integers(3, 6)))
         if rng.random() < 0.5:
@@ -134,7 +149,8 @@ def run_case(ctx, i):
     kind = "rect" if i % 2 == 0 else "del"
     # every 4th Delaunay case: source-plane coordinates in other units (interpolation weights are scale free)
     units = float(10.0 ** rng.uniform(-7, 2)) if (kind == "del" and i % 8 == 5) else 1.0
-    ok, c = ctx.guarded("mapper.construct", lambda: make(ctx, rng, kind, units))
+    pipeline = (kind == "rect" and i % 8 == 2)
+    ok, c = ctx.guarded("mapper.construct", lambda: make(ctx, rng, kind, units, pipeline))
     if not ok:
         return
     mp, src, subs, m = c["mapper"], c["src"], c["subs"], c["m"]
@@ -162,6 +178,11 @@ def run_case(ctx, i):
         buf = 1e-8
         y_max, y_min = src[:, 0].max() + buf, src[:, 0].min() - buf
         x_max, x_min = src[:, 1].max() + buf, src[:, 1].min() - buf
+        if c.get("pipeline"):
+            # the cells are those of the mesh the pipeline laid down (its own extent), not re-derived from the points
+            ex = c["mesh"].geometry.extent
+            x_min, x_max, y_min, y_max = float(ex[0]), float(ex[1]), float(ex[2]), float(ex[3])
+            ctx.classes["rect:built_by_pipeline_with_border_relocator"] += 1
         sy, sx = (y_max - y_min) / Hm, (x_max - x_min) / Wm
         ctx.check(P == Hm * Wm, "params", got=P, **W)
         k = maps[:, 0]
